@@ -264,6 +264,7 @@ type EValTag1 struct {
 type EValTag2 struct {
 	Val int16 `capnp:"val"`
 }
+type EValNoTag2 struct{ Val int16 }
 type ELevel2 struct{ Val int16 }
 type ELevel1 struct {
 	ELevel2
@@ -299,6 +300,21 @@ type EPtr struct { // embedded pointer
 type EOmit struct { // embedded but omitted
 	EVal `capnp:"-"`
 	Duo  int64
+}
+type EUntaggedFirst struct { // two untagged, then the tagged one: tagged wins
+	EVal
+	EValNoTag
+	EValTag1
+}
+type EThreeNoTags struct { // three untagged at the same depth: all ignored
+	EVal
+	EValNoTag
+	EValNoTag2
+}
+type ECollideThenDeeper struct { // ambiguous at depth 2 hides depth 3 as well
+	EVal
+	EValNoTag
+	ELevel1
 }
 type EDeep struct{ ELevel1 } // two levels of embedding (val at depth 3, duo at depth 2)
 type EShallow struct {      // val at depth 2 hides val at depth 3
@@ -399,6 +415,9 @@ func init() {
 	add("EOneTag", EOneTag{}, "VerOneData", air.VerOneData_TypeID, sz(8, 0), 1, true)
 	add("EOneTagPlus", EOneTagPlus{}, "VerOneData", air.VerOneData_TypeID, sz(8, 0), 1, true)
 	add("ETwoTags", ETwoTags{}, "VerOneData", air.VerOneData_TypeID, sz(8, 0), 1, true)
+	add("EUntaggedFirst", EUntaggedFirst{}, "VerOneData", air.VerOneData_TypeID, sz(8, 0), 1, true)
+	add("EThreeNoTags", EThreeNoTags{}, "VerOneData", air.VerOneData_TypeID, sz(8, 0), 1, true)
+	add("ECollideThenDeeper", ECollideThenDeeper{}, "VerTwoData", air.VerTwoData_TypeID, sz(16, 0), 1, true)
 	add("EPtr", EPtr{}, "VerTwoData", air.VerTwoData_TypeID, sz(16, 0), 1, true)
 	add("EOmit", EOmit{}, "VerTwoData", air.VerTwoData_TypeID, sz(16, 0), 1, true)
 	add("EDeep", EDeep{}, "VerTwoData", air.VerTwoData_TypeID, sz(16, 0), 1, true)
